@@ -271,10 +271,11 @@ TWIN_FAMILIES = {
 }
 TWIN_OPS = {op: fam for fam, ops in TWIN_FAMILIES.items() for op in ops}
 # Families whose Rust loop also has a STEP-FAITHFUL explicit-stack machine in the model (Model/ApplyLimitStack.v, Model/DryStack.v,
-# Model/Apply3Stack.v; proved equal to the reference definitions in Proofs/ApplyLimitStack.v, Proofs/DryStack.v, Proofs/Apply3Stack.v).
-# BDD_ENGINE=stack selects the machine when no operand has more than STACK_MAX_NODES nodes (driver/ops_core.ml `pick3`; above that the
-# fast twin answers); for the nested family `stack` = reference.
-STACK_FAMILIES = ("limit", "dry", "ternary")
+# Model/Apply3Stack.v, Model/NestedStack.v; proved equal to the reference definitions in Proofs/ApplyLimitStack.v, Proofs/DryStack.v,
+# Proofs/Apply3Stack.v, Proofs/NestedStack.v).  BDD_ENGINE=stack selects the machine when no operand has more than STACK_MAX_NODES
+# nodes (driver/ops_core.ml `pick3` / `both_nested`; above that the fast twin answers).  Nested family: the outer loop of
+# `nested_apply`, the inner loop of `inner_apply` (run to completion inside one outer step) and the copy loop of `fix_bdd_alignment`.
+STACK_FAMILIES = ("limit", "dry", "ternary", "nested")
 STACK_MAX_NODES = 300
 CROSS_DETAIL = {}
 
@@ -324,10 +325,10 @@ def engine_crosscheck(workdir, steps, limit=400, max_nodes=2000, twin_limit=100,
     Proofs/ApplyStack.v).  Size-limited operator, dry run, ternary operators and nested apply / quantifiers: the reference
     definitions (Model/Apply.v, Model/Apply3.v, Model/Nested.v) and their fast twins (Model/ApplyFast2.v,
     Model/Apply3Fast.v, Model/NestedFast.v; proved equal in Proofs/ApplyFast2.v, Proofs/Apply3Fast.v, Proofs/NestedFast.v);
-    for the size-limited operator, the dry run and the ternary operators also the step-faithful explicit-stack machines of
-    their own Rust loops (Model/ApplyLimitStack.v, Model/DryStack.v, Model/Apply3Stack.v; proved equal in
-    Proofs/ApplyLimitStack.v, Proofs/DryStack.v, Proofs/Apply3Stack.v), which BDD_ENGINE=stack selects on operands of at most
-    STACK_MAX_NODES nodes (above: the fast twin; nested family: the reference).  On top of the twin sample an extra sample of
+    for all four of these families also the step-faithful explicit-stack machines of their own Rust loops
+    (Model/ApplyLimitStack.v, Model/DryStack.v, Model/Apply3Stack.v, Model/NestedStack.v; proved equal in
+    Proofs/ApplyLimitStack.v, Proofs/DryStack.v, Proofs/Apply3Stack.v, Proofs/NestedStack.v), which BDD_ENGINE=stack selects on
+    operands of at most STACK_MAX_NODES nodes (above: the fast twin).  On top of the twin sample an extra sample of
     steps small enough for the machines is taken per stack family (_stack_sample), so that they are exercised up to their
     threshold.  All engines are forced on the same transcript lines (BDD_ENGINE=slow|fast|stack) and must print identical
     results, equal to the normal run's model answer.  Operands above max_nodes (twin families: twin_max_nodes) nodes are left
@@ -404,7 +405,7 @@ def vm_crosscheck_twins(workdir, steps, per_family=6, max_nodes=40):
         return 0, 0
     lines = ["From Coq Require Import List NArith. Import ListNotations.",
              "From BddVerif Require Import Model.Bdd Model.Apply Model.Ops Model.ApplyFast Model.ApplyFast2 Model.Apply3 Model.Apply3Fast Model.Nested Model.NestedFast.",
-             "From BddVerif Require Import Model.ApplyLimitStack Model.DryStack Model.Apply3Stack.",
+             "From BddVerif Require Import Model.ApplyLimitStack Model.DryStack Model.Apply3Stack Model.NestedStack.",
              "Open Scope N_scope.",
              "Definition tr (r : bdd) := map (fun n => (nvar n, nlow n, nhigh n)) r.",
              "Definition showb (o : outcome bdd) : N * list (N * N * N) := match o with Ok r => (0, tr r) | Panic => (1, []) | OutOfFuel => (2, []) end.",
@@ -416,7 +417,7 @@ def vm_crosscheck_twins(workdir, steps, per_family=6, max_nodes=40):
         sfxs = ("", "_fast", "_stack") if TWIN_OPS[op] in STACK_FAMILIES else ("", "_fast")
         nev.append(len(sfxs))
         for sfx in sfxs:
-            tsfx = "_stack" if sfx == "_stack" else "_faithful" + sfx   # ternary entry points: *_faithful, *_faithful_fast, *_stack
+            tsfx = "_stack" if sfx == "_stack" else "_faithful" + sfx   # ternary / nested entry points: *_faithful, *_faithful_fast, *_stack
             if op in ("fbinlim", "binlim"):
                 lim, t = call[1], call[2]
                 fa, fb, fo, a, b = (call[3:8] if op == "fbinlim" else ["N", "N", "N"] + call[3:5])
@@ -434,12 +435,12 @@ def vm_crosscheck_twins(workdir, steps, per_family=6, max_nodes=40):
                     tsfx, _coq_bdd(call[6]), _coq_bdd(call[7]), _coq_bdd(call[8]), _coq_ov(call[2]), _coq_ov(call[3]), _coq_ov(call[4]), _coq_ov(call[5]),
                     _coq_tab(call[1], "op3_of_table"))
             elif op in ("exists", "for_all"):
-                e = "showb (bdd_%s_faithful%s %s %s)" % (op, sfx, _coq_bdd(call[1]), _coq_nlist(call[2]))
+                e = "showb (bdd_%s%s %s %s)" % (op, tsfx, _coq_bdd(call[1]), _coq_nlist(call[2]))
             elif op in ("bin_exists", "bin_for_all"):
-                e = "showb (binary_op_with_%s_faithful%s %s %s %s %s)" % (op[4:], sfx, _coq_bdd(call[2]), _coq_bdd(call[3]), _coq_tab(call[1]), _coq_nlist(call[4]))
+                e = "showb (binary_op_with_%s%s %s %s %s %s)" % (op[4:], tsfx, _coq_bdd(call[2]), _coq_bdd(call[3]), _coq_tab(call[1]), _coq_nlist(call[4]))
             else:   # nested
                 trig = "[" + "; ".join("true" if c == "1" else "false" for c in call[5][1:]) + "]"
-                e = "showb (nested_apply_faithful%s %s %s %s %s %s)" % (sfx, _coq_bdd(call[3]), _coq_bdd(call[4]), trig, _coq_tab(call[1]), _coq_tab(call[2]))
+                e = "showb (nested_apply%s %s %s %s %s %s)" % (tsfx, _coq_bdd(call[3]), _coq_bdd(call[4]), trig, _coq_tab(call[1]), _coq_tab(call[2]))
             lines.append("Eval vm_compute in %s." % e)
     path = os.path.join(workdir, "cases_twins.v")
     open(path, "w").write("\n".join(lines) + "\n")
